@@ -39,6 +39,8 @@ FIXED = {
  "bindings declared inside a match that is used as another match's scrutinee": ("C12,C14,C03", "match (match x { v -> .. }) { r -> .. } stores v past the frame"),
 }
 FIXED.update({
+ "a block comment ended at the first": ("C29", "let x = /* a*b */ 3: the comment ends at the first '*' and its rest is lexed as code"),
+ "a bare return followed by": ("C29", "return; next() is a parse error while return<newline>next() is a bare return"),
  "a generic function whose result type is instantiated to void": ("C02,C01", "id(10) + { let w = (o: option<void>)!; 5 } prints 5"),
  "patterns on enum variants with void fields": ("C02,C01,C14", "match Ev.Va(5, nil) { .Va(n, _) -> n .. } faults; 1 + match En.Dd(nil) { .Dd(_) -> 9 .. } prints 9"),
  "the line reported for a runtime error in a multi-line expression": ("C05,C32", "vh_emit_int(x ^ {\n x\n}) with x = -7: error line differs between optimized and unoptimized builds"),
